@@ -1,15 +1,17 @@
 #!/bin/bash
 # Parallel form of legal_regress.sh: usage tools/legal_regress_par.sh <lanes> [name-pattern]
 # Every property-preserving variant under /verif/legal is applied in its own scratch worktree of /repo and every check of the
-# changed layer (plus C20) must stay silent. /repo itself is never touched.
+# changed layer (plus C20) must stay silent. /repo itself is never touched. LEGAL_IDS_RENET / LEGAL_IDS_NETC restrict the checks
+# (e.g. to those whose generators were just changed).
 cd "$(dirname "$0")/.."
 LANES=${1:-3}; PAT=${2:-.}
 OUT=$(mktemp -d /tmp/legalreg-par.XXXX)
 one() {
   name=$1; d=legal/$name
-  RENET="C01 C02 C03 C06 C08 C09 C11 C12 C13 C14 C15 C16 C20"; NETC="C04 C05 C07 C10 C13 C16 C17 C18 C19 C20"
+  RENET="${LEGAL_IDS_RENET:-C01 C02 C03 C06 C08 C09 C11 C12 C13 C14 C15 C16 C20}"; NETC="${LEGAL_IDS_NETC:-C04 C05 C07 C10 C13 C16 C17 C18 C19 C20}"
+  EXTRA="C11 C12"; [ -n "${LEGAL_IDS_NETC:-}" ] && EXTRA=""
   file=$(python3 -c "import json;print(json.load(open('$d/meta.json'))['file'])")
-  case "$file" in renet/*) ids="$RENET";; renet_netcode/*) ids="$NETC C11 C12";; *) ids="$NETC";; esac
+  case "$file" in renet/*) ids="$RENET";; renet_netcode/*) ids="$NETC $EXTRA";; *) ids="$NETC";; esac
   wt=/tmp/legalreg-$name
   git -C /repo worktree add -q --detach $wt HEAD 2>/dev/null || { echo "$name: cannot create worktree"; return; }
   if ! git -C $wt apply /verif/$d/patch.diff; then echo "$name: patch does not apply"; git -C /repo worktree remove --force $wt; return; fi
